@@ -155,10 +155,16 @@ def gen_history(rng, length):
             xa, xb = rng.sample([0, 2, 5], 2)
         else:
             sc = rng.choice([0.5, 1.0])
-            fam = rng.choice(["intermediate", "intermediate", "combined"])
-            savs = [None, "gvar"]
-            rng.shuffle(savs)
-            for sv in savs:
+            if rng.random() < 0.5:  # same family, savings with one and two parameters per variable
+                fam = rng.choice(["intermediate", "intermediate", "combined"])
+                savs = [None, "gvar"]
+                rng.shuffle(savs)
+                pairs = [(sv, fam) for sv in savs]
+            else:  # same saving, families that are built from one another (the combined penalty calls the other three)
+                fams = rng.choice([["combined", "intermediate"], ["combined", "sparse"], ["combined", "dense"], ["intermediate", "combined"]])
+                sv = rng.choice([None, "gvar"])
+                pairs = [(sv, fm) for fm in fams]
+            for sv, fam in pairs:
                 objs.append({"type": "det", "kind": "mvcapa", "prm": {"scale": sc, "m": 2, "saving": sv, "cfam": fam, "pfam": fam}, "share": False})
             xa = xb = rng.choice([3, 4, 4])
         for o, op, xi in [(a, "fit", xa), (b, "fit", xb), (a, "predict", xa), (b, "predict", xb), (b, "transform_scores", xb),
